@@ -6,7 +6,7 @@ import bbgen
 
 class C07(WigBedProp):
     pid = "C07"
-    view_tags = ("R", "OPEN", "A")
+    view_tags = ("R", "OPEN", "ZOOMS", "A")
     bed = False
     rule = ("bigWig inputs with small integer values; gaps shorter than, equal to and longer than the resolution, values spanning "
             "several records, values ending exactly on a record boundary, 1–6 chromosomes; manual zoom lists (sorted, distinct) "
